@@ -800,15 +800,31 @@ class Gen:
       self._in_vsl = True
       try: E = self._explicit(iw, list(srcs), 1)
       finally: self._in_vsl = False
-      if E[0] == "c": continue
+      if E[0] == "c" or not expr_refs(E, []): continue          # a constant position is an ordinary slice
       idx = ["bin", "and", E, ["c", K, None]]
       form = "bit" if (w == 1 and rng.random() < 0.6) else "ps"
       return ["vsl", self.root_ref(path, t), idx, w, form]
     return None
 
+  def const_expr(self, w, depth=2):
+    """an expression over EXPLICITLY sized constants only ( (~Bits8(1)) >> 1, Bits8(200) + Bits8(100) ): folded by the type checker,
+    computed on Bits objects (wrapping at w bits) by the simulator"""
+    rng = self.rng
+    if depth <= 0 or rng.random() < 0.3:
+      return ["c", rng.choice([0, 1, mask(w), 1 << (w - 1), rng.getrandbits(w)]), w]
+    r = rng.random()
+    if r < 0.3: return ["inv", self.const_expr(w, depth - 1)]
+    if r < 0.5: return ["bin", rng.choice(["shl", "shr"]), self.const_expr(w, depth - 1), ["c", rng.randrange(0, min(w, 4) + 1), None]]
+    return ["bin", rng.choice(["add", "sub", "and", "or", "xor"]), self.const_expr(w, depth - 1), self.const_expr(w, depth - 1)]
+
   def leaf(self, w, srcs):
     rng = self.rng
     rng.shuffle(srcs)
+    if self.k.get("p_const_expr") and not self.k.get("avoid_const_ops") and w <= 64 and rng.random() < self.k["p_const_expr"]:
+      if w >= 2 and rng.random() < 0.4:
+        # a right shift of an inverted / negated constant: the bits shifted in are zeros at the constant's own width
+        return ["bin", "shr", ["inv", ["c", rng.getrandbits(w) & (mask(w) >> 1), w]], ["c", rng.randrange(1, min(w, 5)), None]]
+      return self.const_expr(w)
     if self.k.get("p_vsl") and not getattr(self, "_in_vsl", False) and rng.random() < self.k["p_vsl"]:
       e = self.var_select(w, srcs)
       if e is not None: return e
